@@ -327,6 +327,8 @@ func runScript(sc *Scenario, ro runOpts) *runResult {
 						}()
 						if k.e != nil {
 							sb.WriteString(k.e.Error())
+						} else if k.m == nil {
+							sb.WriteString(string(k.runes))
 						} else {
 							canonOne(&sb, k.m)
 						}
